@@ -252,6 +252,29 @@ func kind(v any) string {
 	return "?"
 }
 
+// situation describes where the path leads in the document before the assignment: through an
+// element of an existing array, or through a missing intermediate element. It is appended to the
+// clause so that a finding is keyed by (symptom, situation).
+func situation(pre any, path []string) string {
+	v := pre
+	for i, k := range path {
+		if _, isArr := v.([]any); isArr {
+			if _, ok := child(v, k); ok {
+				return "@through-array"
+			}
+		}
+		c, ok := child(v, k)
+		if !ok {
+			if i < len(path)-1 {
+				return "@missing-intermediate"
+			}
+			return ""
+		}
+		v = c
+	}
+	return ""
+}
+
 // ---- the oracle of one nested assignment ----------------------------------------------------------
 
 type finding struct{ clause, detail string }
@@ -265,8 +288,22 @@ func judgeSet(pre any, post any, postOK bool, path []string, val value, success 
 		}
 		return out, "set failed", false
 	}
+	sit := situation(pre, path)
+	defer func() {
+		for i := range out {
+			out[i].clause += sit
+		}
+	}()
 	if !postOK {
 		return []finding{{"variable-destroyed", fmt.Sprintf("the assignment reported success but the variable no longer holds a document (was %s)", canon(pre))}}, "set ok", false
+	}
+	// a container on the way to the path that is null afterwards
+	for i := 1; i < len(path); i++ {
+		if o, ok := lookup(pre, path[:i]); ok && (kind(o) == "object" || kind(o) == "array") {
+			if n, ok := lookup(post, path[:i]); ok && n == nil {
+				return []finding{{"ancestor-nulled", fmt.Sprintf("the assignment reported success and replaced the %s at %s by null: %s (before: %s)", kind(o), strings.Join(path[:i], "."), canon(post), canon(pre))}}, "set ok", false
+			}
+		}
 	}
 	old, existed := lookup(pre, path)
 	want := val.v
@@ -290,8 +327,8 @@ func judgeSet(pre any, post any, postOK bool, path []string, val value, success 
 		out = append(out, finding{"reads-back", fmt.Sprintf("after the successful assignment the path does not exist: %s (before: %s)", canon(post), canon(pre))})
 	} else if !notAsserted && !reflect.DeepEqual(got, want) {
 		out = append(out, finding{"reads-back", fmt.Sprintf("path reads back %s, expected %s: %s (before: %s)", canon(got), canon(want), canon(post), canon(pre))})
-	} else if notAsserted && (kind(got) == "object" || kind(got) == "array") {
-		out = append(out, finding{"reads-back", fmt.Sprintf("path reads back %s after assigning a scalar", canon(got))})
+	} else if notAsserted && kind(got) != kind(old) {
+		out = append(out, finding{"leaf-type-kept", fmt.Sprintf("the %s leaf reads back %s (%s) after assigning %s: not converted to the existing leaf's type", kind(old), canon(got), kind(got), canon(val.v))})
 	}
 	d := maskDepth(pre, path)
 	if a, b := mask(pre, path, d), mask(post, path, d); !reflect.DeepEqual(a, b) {
@@ -518,7 +555,7 @@ func maxDepth(quick bool) int {
 	if quick {
 		return 3
 	}
-	return 5
+	return 4
 }
 
 func run(c *vlib.Ctx) {
@@ -587,7 +624,7 @@ func replay(c *vlib.Ctx, w string) {
 func init() {
 	vlib.Register(&vlib.Check{
 		ID: "C12", Engine: "E3",
-		Rule: "variables a and b are injected as json-typed variables (a = D_i, b = D_i+1 for the start documents {\"a\":1,\"b\":{\"c\":\"x\"}}, [1,{\"k\":true}], {\"a\":[1,2]}); breadth-first search over histories of {b = $a, a = $b, $a.P = V, $b.P = V, call of a function (v: json) that assigns 2 at P of its parameter and prints it} with P in {a, b.c, 0, 1.k, a.1, n, b.n, a.5} and V in {2, \"y\", true}, history length <= L (quick 3, thorough 5); each history is replayed as one murex program, both documents are printed before and after the last statement, and the last statement is judged: a copy equals its source, the other variable never changes, a failed assignment changes nothing, after a successful one the path reads back V (converted to string for a string leaf; V itself for a same-type leaf, a new path or a replaced container) and every other path is unchanged, the callee's change is not seen by the caller; successors with a new (a,b) document pair are enqueued; depth-1 prefixes are dealt out to the workers; non-trivial = the history contains a copy statement before its last statement (the two variables share an origin)",
+		Rule:   "variables a and b are injected as json-typed variables (a = D_i, b = D_i+1 for the start documents {\"a\":1,\"b\":{\"c\":\"x\"}}, [1,{\"k\":true}], {\"a\":[1,2]}); breadth-first search over histories of {b = $a, a = $b, $a.P = V, $b.P = V, call of a function (v: json) that assigns 2 at P of its parameter and prints it} with P in {a, b.c, 0, 1.k, a.1, n, b.n, a.5} and V in {2, \"y\", true}, history length <= L (quick 3, thorough 4); each history is replayed as one murex program, both documents are printed before and after the last statement, and the last statement is judged: a copy equals its source, the other variable never changes, a failed assignment changes nothing, after a successful one the path reads back V (converted to string for a string leaf; V itself for a same-type leaf, a new path or a replaced container; for a number or bool leaf of another type only that the leaf keeps its JSON type) and every other path is unchanged, the callee's change is not seen by the caller; successors with a new (a,b) document pair are enqueued; depth-1 prefixes are dealt out to the workers; non-trivial = the history contains a copy statement before its last statement (the two variables share an origin)",
 		Run:    run,
 		Replay: replay,
 		Assumptions: []string{
